@@ -55,6 +55,37 @@ def _state_confirmed_in_lock(g, n, atom):
     return False
 
 
+def public_handlers_prechecked(ctx, rule):
+    """process_incoming_*: pre-check first; on success the matching handler (the one registered for buffering) runs under
+    mdib_lock with the same arguments."""
+    repo = ctx.repo
+    publics = [m for m in repo.cls(CM).methods if m.startswith('process_incoming_')]
+    ctx.floor(rule, len(publics), 7, 'public process_incoming_* methods')
+    for m in sorted(publics):
+        fi = repo.method(CM, m)
+        g = cfg_of(fi)
+        pre = g.nodes_calling('_pre_check_report_ok')
+        inner = [(n, c) for n in g.real_nodes() for c in n.calls() if (call_name(c) or '').startswith('_process_incoming_')
+                 and isinstance(c.func, ast.Attribute)]
+        ok = len(pre) == 1 and len(inner) == 1
+        if ok:
+            pn, pc = pre[0]
+            inn, ic = inner[0]
+            facts = g.facts_at(inn)
+            ok = any('_pre_check_report_ok' in t and p is True for t, p in facts.both()) and bool(g.held_withs(inn, 'mdib_lock'))
+            # handler registered for buffering == handler called
+            ok = ok and len(pc.args) == 3 and unparse(pc.args[2]) == unparse(ic.func)
+            # same version group and payload
+            ok = ok and [unparse(a) for a in pc.args[:2]] == [unparse(a) for a in ic.args[:2]]
+            # nothing touches the tables before the pre-check
+            first = [n for n in g.real_nodes() if n.kind != 'stmt' or not (isinstance(n.stmt, ast.Expr)
+                                                                            and isinstance(n.stmt.value, ast.Constant))]
+            ok = ok and first and first[0] is pn
+        ctx.ob(rule, f'{m}', ok,
+               f'{m}: pre-check first; on success the matching handler runs under mdib_lock with the same arguments it '
+               f'would be buffered with', fi=fi)
+
+
 def run(ctx):  # noqa: C901, PLR0912, PLR0915
     repo = ctx.repo
     ctx.rule('C06.R1', 'MdibVersion gate: abstract evaluation over the orderings + dominance over all table writes')
@@ -136,31 +167,7 @@ def run(ctx):  # noqa: C901, PLR0912, PLR0915
     ctx.floor('C06.R2', n_u, 3, 'in-place state updates')
 
     # ------------------------------------------------------------------ R3
-    publics = [m for m in repo.cls(CM).methods if m.startswith('process_incoming_')]
-    ctx.floor('C06.R3', len(publics), 7, 'public process_incoming_* methods')
-    for m in sorted(publics):
-        fi = repo.method(CM, m)
-        g = cfg_of(fi)
-        pre = g.nodes_calling('_pre_check_report_ok')
-        inner = [(n, c) for n in g.real_nodes() for c in n.calls() if (call_name(c) or '').startswith('_process_incoming_')
-                 and isinstance(c.func, ast.Attribute)]
-        ok = len(pre) == 1 and len(inner) == 1
-        if ok:
-            pn, pc = pre[0]
-            inn, ic = inner[0]
-            facts = g.facts_at(inn)
-            ok = any('_pre_check_report_ok' in t and p is True for t, p in facts.both()) and bool(g.held_withs(inn, 'mdib_lock'))
-            # handler registered for buffering == handler called
-            ok = ok and len(pc.args) == 3 and unparse(pc.args[2]) == unparse(ic.func)
-            # same version group and payload
-            ok = ok and [unparse(a) for a in pc.args[:2]] == [unparse(a) for a in ic.args[:2]]
-            # nothing touches the tables before the pre-check
-            first = [n for n in g.real_nodes() if n.kind != 'stmt' or not (isinstance(n.stmt, ast.Expr)
-                                                                            and isinstance(n.stmt.value, ast.Constant))]
-            ok = ok and first and first[0] is pn
-        ctx.ob('C06.R3', f'{m}', ok,
-               f'{m}: pre-check first; on success the matching handler runs under mdib_lock with the same arguments it '
-               f'would be buffered with', fi=fi)
+    public_handlers_prechecked(ctx, 'C06.R3')
     pc = repo.method(CM, '_pre_check_report_ok')
     g = cfg_of(pc)
     wd = g.nodes_calling('_check_sequence_or_instance_id_changed')
